@@ -68,6 +68,15 @@ def cells(ireg, freg, ireg2, freg2, call_int, call_float):
             out.append(('call-arg S<-%s' % ta, '%s(%s);' % (call_int, a), 'accept' if ta == 'i' else 'reject'))
             out.append(('call-arg f<-%s' % ta, '%s(%s);' % (call_float, a), 'accept' if ta == 'f' else 'reject'))
             out.append(('cond-jump %s' % ta, 'if (%s) goto lbl;\nlbl:' % a, ok))
+    # consts: readable in their own type, never writable, and a string const takes no sigil
+    C = 'const int KCI = 3;\nconst float KCF = 1.5;\nconst string KCS = "abc";\n'
+    for k, (stmt, want) in enumerate([
+            ('%s = KCI;' % dst['i'], 'accept'), ('%s = KCF;' % dst['f'], 'accept'), ('%s = KCF;' % dst['i'], 'reject'), ('%s = KCI;' % dst['f'], 'reject'),
+            ('%s = KCS;' % dst['i'], 'reject'), ('%s = $KCS;' % dst['i'], 'reject'), ('%s = %%KCS;' % dst['f'], 'reject'), ('%s = 1.0 + (%s ? %%KCS : 2.0);' % (dst['f'], ireg2), 'reject'),
+            ('%s = $KCF;' % dst['i'], 'accept'), ('%s = %%KCI;' % dst['f'], 'accept'),
+            ('KCI = 1;', 'reject'), ('KCI += 1;', 'reject'), ('KCF = 2.5;', 'reject'), ('KCF *= 2.0;', 'reject'), ('times(KCI = 3) {\n}', 'reject'), ('times(KCI) {\n}', 'accept'),
+            ('$KCI = 1;', 'reject'), ('%s(KCI);' % call_int, 'accept'), ('%s(KCF);' % call_int, 'reject'), ('%s(KCS);' % call_int, 'reject'), ('if (KCI) {\n}', 'accept'), ('if (KCF) {\n}', 'reject')]):
+        out.append(('const %d: %s' % (k, stmt.split('\n')[0]), C + stmt, want))
     return out
 
 WRAPPERS = [('top', '%s'), ('block', '{\n%s\n}'), ('block3', '{\n{\n{\n%s\n}\n}\n}'), ('in-if', 'if (%(i)s == 1) {\n%%s\n}'), ('in-else', 'if (%(i)s == 1) {\n} else {\n%%s\n}'),
